@@ -77,6 +77,90 @@ def cnum(z):
     return c.real if c.imag == 0 else c
 
 
+def latex_request(rng, N, lnames, labels):
+    """ a random expression of the documented LaTeX-like language of mps.Generator together with its meaning: returns (string, parameters, expanded terms).
+    Grammar used (tests/mps/test_generator_class.py, docstring of mpo_from_latex): sums over one index or over index tuples of a named set, nested sums, scalar and indexed
+    parameters, integer literals, (-1), a leading minus, products by juxtaposition, a parenthesised sum of two products; site labels go through the Generator's map.
+    lnames: {latex operator name: Fock-level name}; labels: site label of position k (labels[k]).  The expansion below is the MEANING (sum over assignments of the
+    indices of amplitude x operator product); the Jordan-Wigner content of every term is decided by TLC. """
+    ops = [k for k in lnames if k != 'I']
+    params = {'sites': list(labels), 'NN': [(labels[k], labels[k + 1]) for k in range(N - 1)], 'far': [(labels[a], labels[b]) for a in range(N) for b in range(N) if abs(a - b) >= 2] or [(labels[0], labels[-1])]}
+    pos = {lab: k for k, lab in enumerate(labels)}
+    pieces, terms = [], []
+    for it in range(rng.choice((1, 2, 2, 3))):
+        form = rng.choice(('single', 'pair', 'nested', 'plain'))
+        sign = -1 if (it > 0 and rng.random() < 0.3) else 1
+        if form == 'single':
+            head, assigns = r'\sum_{i \in sites}', [{'i': a} for a in params['sites']]
+            idx = ['i']
+        elif form == 'pair':
+            st = rng.choice(('NN', 'far'))
+            head, assigns = r'\sum_{i,j \in %s}' % st, [{'i': a, 'j': b} for a, b in params[st]]
+            idx = ['i', 'j']
+        elif form == 'nested':
+            head, assigns = r'\sum_{i \in sites} \sum_{j \in sites}', [{'i': a, 'j': b} for a in params['sites'] for b in params['sites']]
+            idx = ['i', 'j']
+        else:
+            # one explicit pair of sites (as a one-element set: operator indices written as literal numbers are strings for the Generator and are not looked up in an integer map)
+            a, b = rng.choice(labels), rng.choice(labels)
+            params['one%d' % it] = [(a, b)]
+            head, assigns = r'\sum_{i,j \in one%d}' % it, [{'i': a, 'j': b}]
+            idx = ['i', 'j']
+        # coefficient
+        ck = rng.choice(('none', 'scalar', 'indexed', 'literal', 'minus1'))
+        if ck == 'indexed' and idx is None:
+            ck = 'scalar'
+        cname = 'g%d' % it
+        if ck == 'scalar':
+            z = rng.choice(AMPS)
+            params[cname] = cnum(z)
+            ctext, cval = cname, (lambda asg, z=z: complex(*z))
+        elif ck == 'indexed':
+            if len(idx) == 1:
+                arr = np.array([rng.choice((1, 2, -1, 3)) for _ in range(N)], dtype=float)
+                params[cname] = arr
+                ctext, cval = '%s_{i}' % cname, (lambda asg, arr=arr: complex(arr[pos[asg['i']]]))
+            else:
+                arr = np.array([[rng.choice((1, 2, -1, 3)) for _ in range(N)] for _ in range(N)], dtype=float)
+                params[cname] = arr
+                ctext, cval = '%s_{i,j}' % cname, (lambda asg, arr=arr: complex(arr[pos[asg['i']], pos[asg['j']]]))
+        elif ck == 'literal':
+            v = rng.choice((2, 3))
+            ctext, cval = str(v), (lambda asg, v=v: complex(v))
+        elif ck == 'minus1':
+            ctext, cval = '(-1)', (lambda asg: complex(-1))
+        else:
+            ctext, cval = '', (lambda asg: complex(1))
+        # body: a product of operators on the indices, or ( P + Q )
+        def product():
+            k = rng.choice((1, 2, 2, 3))
+            fac = [(rng.choice(ops), rng.choice(idx or ['i', 'j'])) for _ in range(k)]
+            if idx is None:
+                return ' '.join('%s_{%s}' % (o, assigns[0][v]) for o, v in fac), fac       # explicit site labels
+            return ' '.join('%s_{%s}' % (o, v) for o, v in fac), fac
+        if rng.random() < 0.4:
+            (t1, f1), (t2, f2) = product(), product()
+            body, facs = '(%s + %s)' % (t1, t2), [f1, f2]
+        else:
+            t1, f1 = product()
+            body, facs = t1, [f1]
+        piece = ' '.join(x for x in (head, ctext, body) if x)
+        pieces.append((sign, piece))
+        for asg in assigns:
+            for fac in facs:
+                amp = sign * cval(asg)
+                terms.append({'amp': [int(round(amp.real)), int(round(amp.imag))], 'pos': [pos[asg[v]] for _, v in fac], 'ops': [lnames[o] for o, _ in fac]})
+    text = ''
+    for k, (sign, piece) in enumerate(pieces):
+        text += (piece if sign > 0 else '- ' + piece) if k == 0 else (' + ' if sign > 0 else ' - ') + piece
+    return text, params, terms
+
+
+LATEX_NAMES = {'SpinlessFermions': {'I': 'I', 'n': 'n', 'c': 'c', 'cp': 'cp'},
+               'SpinfulFermions': {'I': 'I', 'nu': 'nu', 'cu': 'cu', 'cpu': 'cpu', 'nd': 'nd', 'cd': 'cd', 'cpd': 'cpd', 'Sp': 'Sp', 'Sm': 'Sm'},
+               'Spin12': {'I': 'I', 'sp': 'cp', 'sm': 'c'}}
+
+
 def job(args):
     import yastn
     import yastn.tn.mps as mps
@@ -110,9 +194,22 @@ def job(args):
                 pos = [rng.randrange(N) for _ in range(k)]
                 on = [rng.choice(names) for _ in range(k)]
                 terms.append({'amp': rng.choice(AMPS), 'pos': pos, 'ops': on})
+            latex = None
+            if rng.random() < 0.35:
+                # the LaTeX-like Generator: same meaning (sum of amplitude x operator products), requested as an expression; site labels through the Generator's map
+                lnames = {k: v for k, v in LATEX_NAMES[fam[0]].items()}
+                labels = list(range(N)) if rng.random() < 0.5 else rng.sample(range(10, 10 + 3 * N), N)
+                latex, lparams, terms = latex_request(rng, N, lnames, labels)
+                fmap = []
             e = dict(base, op='generate', N=N, fmap=fmap, terms=terms, out='ok', ent=[])
+            if latex is not None:
+                e['via'] = 'latex: ' + latex
             try:
-                H = mps.generate_mpo(I, [mps.Hterm(cnum(t['amp']), tuple(t['pos']), tuple(named[x] for x in t['ops'])) for t in terms], f_map=tuple(fmap) if fmap else None)
+                if latex is not None:
+                    gen = mps.Generator(N, ops, map={lab: k for k, lab in enumerate(labels)})
+                    H = gen.mpo_from_latex(latex, lparams)
+                else:
+                    H = mps.generate_mpo(I, [mps.Hterm(cnum(t['amp']), tuple(t['pos']), tuple(named[x] for x in t['ops'])) for t in terms], f_map=tuple(fmap) if fmap else None)
                 e['ent'] = mpo_entries(H, N, locc, nm)
             except YastnError as ex:
                 # terms of different total charge cannot be summed into one MPO: documented rejection, not an answer
@@ -133,7 +230,7 @@ def job(args):
         kv = fock_vector(ket, locc, nm)
         if len(kv) == 0 or len(kv) > 70:
             continue
-        which = rng.choice(('1site', '1site_forms', '2site', '2site', '2site_str', 'nsite', 'nsite', 'sample') if nm == 1 else ('1site', '1site_forms', '2site', '2site', '2site_str', 'nsite', 'nsite'))
+        which = rng.choice(('1site', '1site_forms', '2site', '2site', '2site_str', 'nsite', 'nsite', 'sample', 'rdm') if nm == 1 else ('1site', '1site_forms', '2site', '2site', '2site_str', 'nsite', 'nsite', 'rdm'))
         if which == 'sample':
             # Born probabilities of drawn configurations: occupation basis in every symmetry, x / y bases (complex local vectors) in the dense configuration
             bases = ['z'] + (['x', 'y', 'y'] if not nsym else [])
@@ -169,6 +266,30 @@ def job(args):
                                     pnum=pn, den=den, near=bool(abs(x - pn) <= 1e-8 * max(1.0, x))))
             except YastnError as ex:
                 evs.append(dict(base, op='sample', N=N, fmap=[], ket=kv, out='YastnError: ' + str(ex)[:60], bases=bs, cfg=[], m=m, u=[], pnum=0, den=0, near=False))
+            continue
+        if which == 'rdm':
+            # reduced density matrix on 1-3 distinct sites listed in ANY order: Tr(rho . O_0 x O_1 x ...) with the operators in the order of the listed sites must be the
+            # expectation value of the same operators at these sites (operators multiplied by fkron in the order given, validated in C05); charge-neutral products only
+            k = rng.randint(1, min(3, N))
+            pos = rng.sample(range(N), k)
+            for _try in range(30):
+                on = [rng.choice(names) for _ in range(k)]
+                if not any(ops.config.sym.add_charges(*[named[x].n for x in on])):
+                    break
+            else:
+                continue
+            try:
+                rho = mps.rdm(ket, *pos)
+                O = [named[x] for x in on]
+                F = O[0] if k == 1 else yastn.fkron(*O, sites=tuple(range(k)))
+                v = yastn.tensordot(rho, F, axes=(tuple(range(2 * k)), tuple(j + 1 if j % 2 == 0 else j - 1 for j in range(2 * k)))).to_number()
+                evs.append(dict(base, op='measure', N=N, fmap=[], bra=kv, ket=kv, out='ok', fn='rdm%s' % (pos,), ops=on, pos=pos, val=T._gint(v)))
+            except YastnError as ex:
+                evs.append(dict(base, op='measure', N=N, fmap=[], bra=[], ket=kv, fn='rdm', ops=on, pos=pos, val=[0, 0], out='YastnError: ' + str(ex)[:60]))
+            except Machinery:
+                raise
+            except Exception as ex:  # noqa
+                evs.append(dict(base, op='measure', N=N, fmap=[], bra=[], ket=kv, fn='rdm', ops=on, pos=pos, val=[0, 0], out='raised %s: %s' % (type(ex).__name__, str(ex)[:60])))
             continue
         if which in ('1site', '1site_forms'):
             on, pos = [rng.choice(names)], [rng.randrange(N)]
@@ -280,6 +401,8 @@ def main(tier, seed, replay=None):
         k = e['op'] if e['op'] in ('generate', 'sample') else e['fn'].split('[')[0]
         by[k] = by.get(k, 0) + 1
     rep.cov['parts'].update({'events_by_kind': by, 'generate_with_custom_f_map': sum(1 for e in evs if e['op'] == 'generate' and e['fmap']),
+                             'generate_requested_as_latex_expression': sum(1 for e in evs if e['op'] == 'generate' and str(e.get('via', '')).startswith('latex')),
+                             'latex_expressions_with_a_negated_or_scaled_sum_of_a_bracket': sum(1 for e in evs if e['op'] == 'generate' and '- \\sum' in str(e.get('via', ''))),
                              'measurements_with_bra_not_ket': sum(1 for e in evs if e['op'] == 'measure' and e['bra'] != e['ket'])})
     g = next((e for e in evs if e['op'] == 'generate' and e['ent']), None)
     if g:
